@@ -44,7 +44,7 @@ TECHNIQUE = "model-based stateful PBT (exhaustive small-scope + Hypothesis op-li
 
 OPS_W = (
     ["edge"] * 6 + ["v1"] * 4 + ["v2"] * 4 + ["link"] * 4 + ["unlink"] * 3
-    + ["ua", "ur", "va", "vr"] + ["newv_u", "newu", "edge_bad"] + ["flag", "bulk", "bulk_u"]
+    + ["ua", "ur", "va", "vr"] + ["newv_u", "newu", "newu2", "edge_bad"] + ["flag", "bulk", "bulk_u"]
 )
 
 # coverage-guided extra engine (atheris): executions per fuzzer process, 16 processes
